@@ -188,6 +188,7 @@ def h_abort(cfg):
     d = [sym_num('d%d' % i, sort, 0, None, True) for i in range(2)]
     tb = sym_num('tb', sort, 0)
     dw = sym_num('dw', sort, 0)
+    d2 = [sym_num('e%d' % i, sort, 0, None, True) for i in range(2)]
     stops = cfg['stops']
     for variant in ('single', 'split'):
         env = Environment()
@@ -203,6 +204,12 @@ def h_abort(cfg):
             raise Boom(7)
 
         env.process(ticker())
+        if cfg.get('tickers', 1) > 1:
+            def ticker2():
+                for k in range(3):
+                    yield env.timeout(d2[k % 2])
+                    log.append(('tock', env.now))
+            env.process(ticker2())
         env.process(bad())
         job = None
         if 'proc' in stops:
@@ -599,6 +606,7 @@ def jobs(tier, seed):
     for stops in ([2, 4], [2, 'proc'], [1, 2, 5]):
         js.append({'harness': 'abort', 'cfg': {'stops': stops, 'sorts': 'int'}, 'weight': 30})
     js.append({'harness': 'abort', 'cfg': {'stops': [1000], 'sorts': 'int', 'abandon': True}, 'weight': 30})
+    js.append({'harness': 'abort', 'cfg': {'stops': [2], 'sorts': 'int', 'abandon': True, 'tickers': 2}, 'weight': 60, 'opts': {'max_paths': 6000}})
     for what in ('and', 'or', 'fail', 'excvalue'):
         for sorts in ('int', 'real'):
             js.append({'harness': 'untilev', 'cfg': {'what': what, 'sorts': sorts}, 'weight': 20})
